@@ -159,7 +159,7 @@ FOREIGN_MEASURABLE = ["NetBSD9.3/x86_32/wtmpx", "NetBSD9.3/x86_32/utmpx", "NetBS
                       "CentOS9/x86_64/pacct", "Debian11/armv6l_ARMv6/pacct", "OpenSUSE15/wtmp"]
 
 
-def foreign_layouts(sc, rep, rng, tier, windowed=False):
+def foreign_layouts(sc, rep, rng, tier, windowed=False, merge=False):
     import math
     done = []
     done_names = set()
@@ -282,8 +282,33 @@ def foreign_layouts(sc, rep, rng, tier, windowed=False):
                 if rw.crashed or gotw != wantw:
                     rep.violation("foreign:window", "%s re-timed, window [%s, %s]: printed %s, the window holds %s (rc=%s)" % (rel, a, b, gotw, wantw, rw.rc),
                                   dict(rec, after=a, before=b))
+        nmerge = 0
+        if merge and o_u is not None and not rr.crashed and got == want:
+            # two files of this layout whose records fall into the same seconds, microseconds apart (and some equal): the merge
+            # goes by the full time values, equal ones in the order the files were named
+            msecs = [T + 1, T + 1, T + 2, T + 2, T + 3, T + 3][:k]
+            mus = {"a": [900000, 900001, 500000, 500000, 100, 999999][:k], "b": [100000, 900000, 250000, 500000, 200, 5][:k]}
+            for sub in ("a", "b"):
+                os.makedirs(os.path.join(d, sub), exist_ok=True)
+                rs_ = [bytearray(r_) for r_ in recs]
+                for r_, s_, u_ in zip(rs_, msecs, mus[sub]):
+                    r_[o_s:o_s + 4] = (s_ & 0xFFFFFFFF).to_bytes(4, "little")
+                    r_[o_u:o_u + 4] = u_.to_bytes(4, "little")
+                # (each file stores its records in time order)
+                rs_ = [r_ for _, _, r_ in sorted(zip(zip(msecs, mus[sub]), range(k), rs_), key=lambda x: (x[0], x[1]))]
+                with open(os.path.join(d, sub, name), "wb") as f:
+                    f.write(b"".join(bytes(r_) for r_ in rs_))
+            for order in (("a", "b"), ("b", "a")):
+                rm = common.run_s4(["--color", "never"] + [os.path.join(o_, name) for o_ in order], cwd=d, trace=True, timeout=60)
+                gotm = [(e["w"], e["ds"], e["dn"]) for e in rm.trace if e["ev"] == "Print"]
+                allm = sorted([((s_, u_ * 1000), w_, j_) for w_, o_ in enumerate(order) for j_, (s_, u_) in enumerate(sorted(zip(msecs, mus[o_])))])
+                wantm = [(w_, key_[0], key_[1]) for key_, w_, j_ in allm]
+                nmerge += 1
+                if rm.crashed or gotm != wantm:
+                    rep.violation("foreign:merge", "%s: two files of this layout named %s: printed (source, seconds, nanoseconds) %s, the merge by their "
+                                  "time values is %s" % (rel, "/".join(order), gotm[:8], wantm[:8]), dict(rec, order=list(order)))
         done_names.add(rel)
-        done.append({"sample": rel, "record_size": recsz, "seconds_at": o_s, "microseconds_at": o_u, "records": k, "windows": nwin, "text_fields_checked": nfields})
+        done.append({"sample": rel, "record_size": recsz, "seconds_at": o_s, "microseconds_at": o_u, "records": k, "windows": nwin, "text_fields_checked": nfields, "merges": nmerge})
     return done
 
 
